@@ -504,6 +504,14 @@ def domain_given(prog: Program) -> RuleResult:
     return r
 
 
+def _stream_lazy(prog):
+    # 'at evaluation time': the stream of instances the symbol graph hands to the variable is stored when the variable is declared and pulled
+    # from when the query is evaluated - drained at declaration, instances created in between are missing
+    from .c10 import stream_lazy
+
+    return stream_lazy(prog)
+
+
 def run(prog: Program, tier: str) -> List[RuleResult]:
     from .c03 import domain_cache, live_iter
 
@@ -511,4 +519,4 @@ def run(prog: Program, tier: str) -> List[RuleResult]:
     return [guard(lambda: sg_register(prog)), guard(lambda: sg_enum(prog)), guard(lambda: sg_sweep(prog, census_only=True)), guard(lambda: sg_evaltime(prog)), guard(lambda: domain_cache(prog)),
             guard(lambda: user_truth(prog, ["entity_query_language.symbol_graph"], 3)), guard(lambda: _idkey(prog)),
             # the enumeration is consumed lazily: a sweep between two of its steps must not shift the list under it (a live instance skipped)
-            guard(lambda: live_iter(prog)), guard(lambda: sg_singleton(prog)), guard(lambda: domain_given(prog))]
+            guard(lambda: live_iter(prog)), guard(lambda: sg_singleton(prog)), guard(lambda: domain_given(prog)), guard(lambda: _stream_lazy(prog))]
